@@ -1,6 +1,8 @@
 import Driver.Proto
 import PqModel.SortCmp
 import PqModel.SortRep
+import PqModel.SortNested
+import PqModel.SortCuts
 
 /-! C10 ops: the range kernel and the optional column buffer mirror run over a history.
 
@@ -11,6 +13,13 @@ import PqModel.SortRep
         `l:<i>:<j>` Less (one result bit each, in order) · `p` Page()
 `repcol <m> <nullsFirst 0/1> <desc 0/1> <op>…` -> `ok rows=<off/base,…> lv=<rep/def,…> base=… less=…`
    ops: `w:<rep/def/value|n;…>` one row · `s:<i>:<j>` · `l:<i>:<j>` · `p`
+
+`bufconf <maxRep> <maxDef> <sorted 0/1> <desc 0/1> <nullsFirst 0/1>` -> `ok wrap=<plain|optional|repeated> reversed=<0/1> ord=<4 bits|->`
+   what `Buffer.configure` sets up for a leaf with these inherited levels (`ord`: the probe table of
+   the null ordering function, `ordTable`; `-` for a plain buffer)
+`swcuts <sortRowCount> <dedupe 0/1> <op>…` -> `ok runs=<size,…> buf=<n>`
+   ops: `w:<k;k;…>` one Write/WriteRows call with these keys · `f` Flush; `runs`: the number of rows
+   of every temporary row group after `Close`'s flush (after duplicate dropping per run if asked)
 
 The definitions below select the mirror of the library *as it currently is* (after the repairs
 F13/F14/F24; the as-found transliterations `bcastAsmF14`, `OptCol.pageF24`, `Col.lessF13` stay in the
@@ -24,7 +33,12 @@ def asmKernel : BitVec 32 → Nat → List (BitVec 32) := bcastAsm
 def pageCur (m : Nat) (c : OptCol Int) : OptCol Int := c.page m
 /-- mirror of the `Less` of a sorting column as `Buffer.configure` sets it up -/
 def lessCur (desc nullsFirst : Bool) (c : Col Int) (i j : Nat) : Bool :=
-  Col.less (fun a b => decide (a < b)) desc nullsFirst c i j
+  let leaf : Leaf := match c with
+    | .req _ => { maxRep := 0, maxDef := 0 }
+    | .opt m _ => { maxRep := 0, maxDef := m }
+  Col.lessConf (fun a b => decide (a < b)) (configure leaf (some ⟨0, desc, nullsFirst⟩)) c i j
+/-- mirror of `Buffer.configure` for one leaf -/
+def configureCur (l : Leaf) (sc : Option SortCol) : Conf := configure l sc
 
 def kernelFn (variant : String) : Option (BitVec 32 → Nat → List (BitVec 32)) :=
   if variant == "asm" then some asmKernel
@@ -67,12 +81,17 @@ def parseCell (t : String) : Option (RCell Int) :=
     | _, _, _ => none
   | _ => none
 
+/-- mirror of the `Less` of a repeated sorting column as `Buffer.configure` sets it up -/
+def repLessCur (m : Nat) (desc nf : Bool) (c : RepCol Int) (i j : Nat) : Bool :=
+  let leaf : Leaf := { maxRep := 1, maxDef := m }
+  RepCol.lessConf (fun a b => decide (a < b)) (configureCur leaf (some ⟨0, desc, nf⟩)) m c i j
+
 def rstepOp (m : Nat) (desc nf : Bool) (st : RSt) (tok : String) : Option RSt :=
   match tok.splitOn ":" with
   | ["w", cs] => ((cs.splitOn ";").mapM parseCell).map fun row => { st with col := st.col.writeRow row }
   | ["s", i, j] => (parse2 i j).map fun (i, j) => { st with col := st.col.swap i j }
   | ["l", i, j] => (parse2 i j).map fun (i, j) =>
-      { st with less := st.col.less (fun a b => decide (a < b)) desc nf m i j :: st.less }
+      { st with less := repLessCur m desc nf st.col i j :: st.less }
   | ["p"] => some { st with col := st.col.page m }
   | _ => none
 
@@ -91,8 +110,42 @@ def handleRep (toks : List String) : Option String :=
     | none => "bad-op"
   | _ => none
 
+/-! ### `Buffer.configure` and the `SortingWriter` run cuts -/
+
+def showBits (bs : List Bool) : String := String.ofList (bs.map fun b => if b then '1' else '0')
+
+def parseCutOp (tok : String) : Option (SWOp Int) :=
+  match tok.splitOn ":" with
+  | ["f"] => some .flush
+  | ["w", ks] => if ks == "" then some (.write []) else ((ks.splitOn ";").mapM parseInt?).map .write
+  | _ => none
+
+def handleConf (toks : List String) : Option String :=
+  match toks with
+  | ["bufconf", mr, md, sorted, desc, nf] => some <|
+    match parseNat? mr, parseNat? md with
+    | some mr, some md =>
+      let sc : Option SortCol := if sorted == "1" then some ⟨0, desc == "1", nf == "1"⟩ else none
+      let cf := configureCur { maxRep := mr, maxDef := md } sc
+      let wrap := match cf.wrap with | .plain => "plain" | .optional => "optional" | .repeated => "repeated"
+      let ord := match cf.wrap with | .plain => "-" | _ => showBits (ordTable cf.nullsFirst cf.descValues)
+      s!"ok wrap={wrap} reversed={if cf.reversed then 1 else 0} ord={ord}"
+    | _, _ => "bad-op"
+  | "swcuts" :: maxRows :: dedupe :: ops => some <|
+    match parseNat? maxRows, ops.mapM parseCutOp with
+    | some maxRows, some ops =>
+      let w := (SW.empty.run maxRows ops).close
+      let size := fun (run : List Int) =>
+        if dedupe == "1" then (dedupRun (fun a b => a - b) none (run.mergeSort (fun a b => decide (a ≤ b)))).length else run.length
+      s!"ok runs={showList (fun (n : Nat) => toString n) (w.runs.map size)} buf={w.buf.length}"
+    | _, _ => "bad-op"
+  | _ => none
+
 def handle (toks : List String) : Option String :=
   match handleRep toks with
+  | some r => some r
+  | none =>
+  match handleConf toks with
   | some r => some r
   | none =>
   match toks with
